@@ -19,8 +19,11 @@ RULE = ("one case = a sequence of /proc/stat snapshots (per-CPU tick vectors; de
         "randomly decreasing fields) interleaved with cpu_times/cpu_percent/cpu_times_percent calls (percpu or not, blocking on a "
         "virtual clock or not) issued from 1-3 live threads, and Process.cpu_percent calls on a virtual timer. non-trivial = a "
         "compared snapshot pair has total delta in (0, 1 s), or a decreasing field, or >=2 CPUs with different loads, or calls "
-        "from >=2 threads interleave; distinct by case hash")
+        "from >=2 threads interleave; distinct by case hash. Plus one fresh interpreter per order (4! = 24) of the four "
+        "percentage forms as *first calls after import* on the importing thread, calls of a second thread woven in: a first call "
+        "is measured against the import-time sample or against nothing, never against another function's sample")
 ASSUMPTIONS = [
+    "a first call of a (thread, function, form) may answer either the share since psutil was imported (importing thread) or all zeros (no previous sample): the statement fixes only 'its own previous sample'",
     "guest time is contained in user time and guest_nice in nice (kernel accounting), so their deltas never exceed the user/nice deltas in generated data; user/nice never decrease in generated data (other fields may)",
     "percentages are compared with psutil's 1-decimal rounding using tolerance 0.05 + 1e-9 against the exact rational value",
     "the non-guest fields of cpu_times_percent must add up to 100 +- 0.05*n_fields whenever the total delta is > 0",
